@@ -39,24 +39,29 @@ var (
 func directed() []rpcsim.Directed {
 	return []rpcsim.Directed{
 		{Sc: one("d13-cancel-sent", 2, res0, cancel), Script: []string{
-			"start 1 1 7", "sret 1 ok", "nres 0 1 100", "cancel 1", "run 1", "run 1", "dret 1 ok", "nrun 0", "nrun 0", "nwrite 0 ok"}},
+			"start 1 1 7", "sret 1 ok", "nres 0 1 100", "cancel 1", "run 1", "run 1", "dret 1 ok", "nrun 0", "nrun 0", "nrun 0", "nwrite 0 ok"}},
 		{Sc: one("d13-cancel-during-decode", 2, res0, cancel), Script: []string{
-			"start 1 1 7", "sret 1 ok", "nres 0 1 100", "nrun 0", "nrun 0", "cancel 1", "run 1", "run 1", "dret 1 ok", "nwrite 0 ok"}},
+			"start 1 1 7", "sret 1 ok", "nres 0 1 100", "nrun 0", "nrun 0", "nrun 0", "cancel 1", "run 1", "run 1", "dret 1 ok", "nwrite 0 ok"}},
+		// the handler has been entered (first statement: its log record) but has not done its CAS yet
+		{Sc: one("cancel-at-handler-entry", 2, res0, cancel), Script: []string{
+			"start 1 1 7", "sret 1 ok", "nres 0 1 100", "nrun 0", "cancel 1", "run 1", "run 1", "dret 1 ok", "nrun 0"}},
+		{Sc: one("fclose-at-handler-entry", 2, res0, fclose), Script: []string{
+			"start 1 1 7", "sret 1 ok", "nres 0 1 100", "nrun 0", "fclose 2", "run 1", "nrun 0"}},
 		{Sc: one("d13-retry-limit", 1, res0, adv3), Script: []string{
-			"start 1 1 7", "sret 1 ok", "nres 0 1 100", "adv 3", "run 1", "sret 1 ok", "nrun 0", "nrun 0", "nwrite 0 ok"}},
+			"start 1 1 7", "sret 1 ok", "nres 0 1 100", "adv 3", "run 1", "sret 1 ok", "nrun 0", "nrun 0", "nrun 0", "nwrite 0 ok"}},
 		{Sc: one("d13-force-close", 2, res0, fclose), Script: []string{
-			"start 1 1 7", "sret 1 ok", "nres 0 1 100", "fclose 2", "run 1", "nrun 0", "nrun 0", "nwrite 0 ok"}},
+			"start 1 1 7", "sret 1 ok", "nres 0 1 100", "fclose 2", "run 1", "nrun 0", "nrun 0", "nrun 0", "nwrite 0 ok"}},
 		{Sc: one("d13-force-close-acked", 2, res0, ack1, fclose), Script: []string{
-			"start 1 1 7", "sret 1 ok", "ack 1", "run 1", "nres 0 1 100", "fclose 2", "run 1", "nrun 0", "nrun 0", "nwrite 0 ok"}},
+			"start 1 1 7", "sret 1 ok", "ack 1", "run 1", "nres 0 1 100", "fclose 2", "run 1", "nrun 0", "nrun 0", "nrun 0", "nwrite 0 ok"}},
 		{Sc: &rpcsim.Scenario{Name: "d13-send-error", Cfg: rpcsim.Config{MaxRetries: 2, Interval: 3}, SendErr: true,
 			Calls: []rpcsim.Option{{Kind: "start", ID: 1, Seq: 1, Body: 7}}, Env: []rpcsim.Option{res0}}, Script: []string{
-			"start 1 1 7", "nres 0 1 100", "sret 1 err", "nrun 0", "nrun 0", "nwrite 0 ok"}},
+			"start 1 1 7", "nres 0 1 100", "sret 1 err", "nrun 0", "nrun 0", "nrun 0", "nwrite 0 ok"}},
 		{Sc: one("duplicate-result", 2, res0, res1), Script: []string{
-			"start 1 1 7", "sret 1 ok", "nres 0 1 100", "nres 1 1 101", "nrun 0", "nrun 1", "nrun 0", "nwrite 0 ok", "run 1", "run 1"}},
+			"start 1 1 7", "sret 1 ok", "nres 0 1 100", "nres 1 1 101", "nrun 0", "nrun 1", "nrun 0", "nrun 1", "nrun 0", "nwrite 0 ok", "run 1", "run 1"}},
 		{Sc: one("error-vs-result", 2, res0, err2), Script: []string{
-			"start 1 1 7", "sret 1 ok", "nres 0 1 100", "nerr 2 1 400", "nrun 2", "nrun 0", "nrun 2", "run 1", "run 1"}},
+			"start 1 1 7", "sret 1 ok", "nres 0 1 100", "nerr 2 1 400", "nrun 2", "nrun 0", "nrun 2", "nrun 0", "nrun 2", "run 1", "run 1"}},
 		{Sc: one("foreign-result", 2, frn3, res0), Script: []string{
-			"start 1 1 7", "sret 1 ok", "nres 3 90 103", "nres 0 1 100", "nrun 0", "nrun 0", "nwrite 0 ok", "run 1", "run 1"}},
+			"start 1 1 7", "sret 1 ok", "nres 3 90 103", "nres 0 1 100", "nrun 0", "nrun 0", "nrun 0", "nwrite 0 ok", "run 1", "run 1"}},
 	}
 }
 
@@ -72,16 +77,16 @@ func wireDirected() []rpcsim.Directed {
 			w = "nwrite 0 err"
 		}
 		ds = append(ds, rpcsim.Directed{Sc: one(fmt.Sprintf("wire-result-shape-%d", shape), 2, r), Script: []string{
-			"start 1 1 7", "sret 1 ok", "nres 0 1 100", "nrun 0", "nrun 0", w, "run 1", "run 1"}})
+			"start 1 1 7", "sret 1 ok", "nres 0 1 100", "nrun 0", "nrun 0", "nrun 0", w, "run 1", "run 1"}})
 		if shape != rpcsim.ShapeNestedGz {
 			ds = append(ds, rpcsim.Directed{Sc: one(fmt.Sprintf("wire-error-shape-%d", shape), 2, e), Script: []string{
-				"start 1 1 7", "sret 1 ok", "nerr 2 1 400", "nrun 2", "nrun 2", "run 1", "run 1"}})
+				"start 1 1 7", "sret 1 ok", "nerr 2 1 400", "nrun 2", "nrun 2", "nrun 2", "run 1", "run 1"}})
 		}
 	}
 	for shape := 1; shape < rpcsim.NumAckShapes; shape++ {
 		a := rpcsim.Option{Kind: "ack", IDs: []int64{90, 1, 1}, Shape: shape}
 		ds = append(ds, rpcsim.Directed{Sc: one(fmt.Sprintf("wire-ack-shape-%d", shape), 2, a, res0), Script: []string{
-			"start 1 1 7", "sret 1 ok", "ack 90 1 1", "run 1", "nres 0 1 100", "nrun 0", "nrun 0", "nwrite 0 ok", "run 1"}})
+			"start 1 1 7", "sret 1 ok", "ack 90 1 1", "run 1", "nres 0 1 100", "nrun 0", "nrun 0", "nrun 0", "nwrite 0 ok", "run 1"}})
 	}
 	return ds
 }
